@@ -227,6 +227,12 @@ func runC52(c *Ctx) {
 	}
 	c.Floor(r3, 3)
 
+	// zone-sign: Encode writes the sign of the whole offset and then hours and minutes of its absolute value; the decoder
+	// therefore negates the sum of hours and minutes (a variable whose definition mentions both parsed numbers) on the '-'
+	// edge, it does not parse the sign together with the hours
+	checkZoneSign(c, "zone-sign-whole-offset", rl+".decodeTimestamp")
+	c.Floor("zone-sign-whole-offset", 1)
+
 	// append-only
 	const r4 = "append-only"
 	if rw := c.MustFunc(r4, dotgitShort+".(*DotGit).ReflogWriter"); rw != nil {
@@ -313,4 +319,171 @@ func fmtSkeleton(f string) string {
 func strconvQuote(s string) string {
 	r := strings.NewReplacer("\n", `\n`, "\t", `\t`)
 	return `"` + r.Replace(s) + `"`
+}
+
+// checkZoneSign: how a "+hhmm"/"-hhmm" zone is turned into an offset. Recognised right shapes: the sum of hours and minutes
+// is negated on the edge that tests the sign character; or the sign is parsed together with the hours and the minutes are
+// negated under a test of the sign *character*. Recognised wrong shapes: sign parsed with the hours and the minutes left
+// alone, or negated under a test of the parsed hours (misses "-00mm"). Other shapes are not decided.
+func checkZoneSign(c *Ctx, r3z, fn string) {
+	if dt := c.MustFunc(r3z, fn); dt != nil {
+		dinfo := dt.Pkg.TypesInfo
+		c.Analysed(dt)
+		// numbers parsed with strconv.Atoi / ParseInt
+		parsed := map[types.Object]bool{}
+		ast.Inspect(dt.Decl.Body, func(n ast.Node) bool {
+			as, ok := n.(*ast.AssignStmt)
+			if !ok || len(as.Rhs) != 1 || len(as.Lhs) != 2 {
+				return true
+			}
+			if call, ok := unparen(as.Rhs[0]).(*ast.CallExpr); ok {
+				if fn := Callee(dinfo, call); fn != nil && fn.Pkg() != nil && fn.Pkg().Path() == "strconv" {
+					if o := objOf(dinfo, as.Lhs[0]); o != nil {
+						parsed[o] = true
+					}
+				}
+			}
+			return true
+		})
+		okNeg := false
+		ast.Inspect(dt.Decl.Body, func(n ast.Node) bool {
+			ifs, ok := n.(*ast.IfStmt)
+			if !ok {
+				return true
+			}
+			// condition compares a byte of the zone with '-'
+			minus := false
+			ast.Inspect(ifs.Cond, func(m ast.Node) bool {
+				if e, ok := m.(ast.Expr); ok {
+					if tv := dinfo.Types[e]; tv.Value != nil && tv.Value.ExactString() == "45" {
+						minus = true
+					}
+				}
+				return true
+			})
+			if !minus {
+				return true
+			}
+			for _, s := range ifs.Body.List {
+				as, ok := s.(*ast.AssignStmt)
+				if !ok || len(as.Lhs) != 1 || len(as.Rhs) != 1 {
+					continue
+				}
+				un, ok := unparen(as.Rhs[0]).(*ast.UnaryExpr)
+				if !ok || un.Op.String() != "-" || objOf(dinfo, un.X) == nil || objOf(dinfo, un.X) != objOf(dinfo, as.Lhs[0]) {
+					continue
+				}
+				// the negated variable is defined from at least two parsed numbers
+				off := objOf(dinfo, un.X)
+				ast.Inspect(dt.Decl.Body, func(m ast.Node) bool {
+					def, ok := m.(*ast.AssignStmt)
+					if !ok || len(def.Lhs) != 1 || len(def.Rhs) != 1 || objOf(dinfo, def.Lhs[0]) != off || def == as {
+						return true
+					}
+					n := 0
+					for po := range parsed {
+						if usesObj(dinfo, def.Rhs[0], po) {
+							n++
+						}
+					}
+					if n >= 2 {
+						okNeg = true
+					}
+					return true
+				})
+			}
+			return true
+		})
+		// the recognised wrong shape: a number is parsed from a slice of the zone that starts at the sign character
+		// (tz[:3], tz[0:3]) while another number is parsed from a later slice: the sign then applies to the hours only
+		signWithHours, laterSlice := false, false
+		ast.Inspect(dt.Decl.Body, func(n ast.Node) bool {
+			call, ok := n.(*ast.CallExpr)
+			if !ok {
+				return true
+			}
+			fn := Callee(dinfo, call)
+			if fn == nil || fn.Pkg() == nil || fn.Pkg().Path() != "strconv" || len(call.Args) == 0 {
+				return true
+			}
+			ast.Inspect(call.Args[0], func(m ast.Node) bool {
+				se, ok := m.(*ast.SliceExpr)
+				if !ok {
+					return true
+				}
+				low := "0"
+				if se.Low != nil {
+					if tv := dinfo.Types[se.Low]; tv.Value != nil {
+						low = tv.Value.ExactString()
+					} else {
+						low = "?"
+					}
+				}
+				highConst := se.High != nil && dinfo.Types[se.High].Value != nil
+				switch {
+				case low == "0" && highConst:
+					signWithHours = true // zone[0:3]: sign and hours
+				case low != "0" && low != "?":
+					laterSlice = true // zone[3:], zone[3:5]: the minutes
+				}
+				return true
+			})
+			return true
+		})
+		// compensation: the minutes (a parsed number) are negated under a test of the sign character, or of the parsed hours
+		compChar, compHours := false, false
+		ast.Inspect(dt.Decl.Body, func(n ast.Node) bool {
+			ifs, ok := n.(*ast.IfStmt)
+			if !ok {
+				return true
+			}
+			negatesParsed := false
+			for _, s := range ifs.Body.List {
+				if as, ok := s.(*ast.AssignStmt); ok && len(as.Lhs) == 1 && parsed[objOf(dinfo, as.Lhs[0])] {
+					negatesParsed = true
+				}
+			}
+			if !negatesParsed {
+				return true
+			}
+			charTest, parsedTest := false, false
+			ast.Inspect(ifs.Cond, func(m ast.Node) bool {
+				be, ok := m.(*ast.BinaryExpr)
+				if !ok {
+					return true
+				}
+				for _, pair := range [][2]ast.Expr{{be.X, be.Y}, {be.Y, be.X}} {
+					if tv := dinfo.Types[pair[1]]; tv.Value != nil && tv.Value.ExactString() == "45" {
+						if _, isIx := unparen(pair[0]).(*ast.IndexExpr); isIx {
+							charTest = true
+						}
+					}
+					if parsed[objOf(dinfo, pair[0])] {
+						if tv := dinfo.Types[pair[1]]; tv.Value != nil && tv.Value.ExactString() == "0" {
+							parsedTest = true
+						}
+					}
+				}
+				return true
+			})
+			if charTest {
+				compChar = true
+			} else if parsedTest {
+				compHours = true
+			}
+			return true
+		})
+		switch {
+		case okNeg:
+			c.Hold(r3z, dt.Name(), dt.Decl.Pos(), "on the '-' edge the sum of hours and minutes is negated")
+		case signWithHours && laterSlice && compChar:
+			c.Hold(r3z, dt.Name(), dt.Decl.Pos(), "the sign is parsed with the hours and the minutes are negated under a test of the sign character")
+		case signWithHours && laterSlice && compHours:
+			c.Violate(r3z, dt.Name(), dt.Decl.Pos(), "the minutes take their sign from the parsed hours: for \"-00mm\" the hours are zero, the zone is decoded as \"+00mm\" and the re-encoded object differs")
+		case signWithHours && laterSlice:
+			c.Violate(r3z, dt.Name(), dt.Decl.Pos(), "the sign is parsed together with the hours and the minutes separately: for zones such as -0330 the minutes are added instead of subtracted")
+		default:
+			c.Hold(r3z, dt.Name(), dt.Decl.Pos(), "shape of the zone computation not recognised: not decided")
+		}
+	}
 }
